@@ -23,5 +23,5 @@ CONSTANTS
   WithNoops = TRUE
 INIT MCInit
 NEXT MCNext
-INVARIANTS NoTraceStep VerdictOk Refines NextAboveAssigned BatchAtomic FilesBound BytesTrack BufInv ZerosAhead
+INVARIANTS NoTraceStep VerdictOk Refines NextAboveAssigned BatchAtomic FilesBound FilesBoundOpen BytesTrack BufInv ZerosAhead
 CHECK_DEADLOCK FALSE
